@@ -113,6 +113,27 @@ type receiverInfo struct {
 	name     string
 	typeName string
 	pkgPath  string
+	// obj is the receiver variable itself: an identifier with the receiver's name
+	// that resolves to another object (a parameter or local that shadows it) is not the receiver
+	obj types.Object
+}
+
+// isReceiver reports whether ident denotes the receiver of the current method
+func (ctx *checkerContext) isReceiver(ident *ast.Ident) bool {
+	recv := ctx.currentReceiver
+	if ident.Name != recv.name {
+		return false
+	}
+
+	if recv.obj == nil || ctx.pass == nil || ctx.pass.TypesInfo == nil {
+		return true
+	}
+
+	if obj := ctx.pass.TypesInfo.Uses[ident]; obj != nil {
+		return obj == recv.obj
+	}
+
+	return true
 }
 
 // extractReceiverInfo extracts receiver information from a method declaration
@@ -141,6 +162,7 @@ func extractReceiverInfo(pass *analysis.Pass, funcDecl *ast.FuncDecl) *receiverI
 		name:     recvName,
 		typeName: typeInfo.TypeName,
 		pkgPath:  typeInfo.PkgPath,
+		obj:      pass.TypesInfo.Defs[recvField.Names[0]],
 	}
 }
 
@@ -385,7 +407,7 @@ func checkReceiverIncDec(
 	}
 
 	// Check if the identifier is the receiver
-	if ident.Name != ctx.currentReceiver.name {
+	if !ctx.isReceiver(ident) {
 		return nil
 	}
 
@@ -505,7 +527,7 @@ func checkReceiverReassignment(
 	}
 
 	// Check if the identifier is the receiver
-	if ident.Name != ctx.currentReceiver.name {
+	if !ctx.isReceiver(ident) {
 		return nil
 	}
 
